@@ -56,6 +56,15 @@ Definition set_unl s v := mk_sst (cA s) (cB s) (once s) (lst s) (k1 s) (k2 s) (w
 Definition set_ons s v := mk_sst (cA s) (cB s) (once s) (lst s) (k1 s) (k2 s) (w1 s) (w2 s) (ctx s) (unl s) v (exited s) (ctx_may_expire s).
 Definition set_exited s v := mk_sst (cA s) (cB s) (once s) (lst s) (k1 s) (k2 s) (w1 s) (w2 s) (ctx s) (unl s) (ons s) v (ctx_may_expire s).
 
+(* the program counters the owner of the Once goes through, in order, with the operations of the
+   source each one stands for (Proofs/StopLifeP.v proves that this is the order of the operations in
+   the body of stopOnce.Do as regenerated into Gen/StopOrder.v, and that step_caller follows it):
+     O1  exit(); close every TCP listener; shut down every websocket server
+     O2  srv.mu.Lock(); remember `closed` of and Close() every REGISTERED client; srv.mu.Unlock()
+     O3  start the waiter; select { ctx.Done() -> O7 ; all remembered channels closed -> O4 }
+     O4  Unload of every plugin        O5  OnStop hook        (O6/O7: return, deferred close(exitedChan)) *)
+Definition owner_phases : list nat := [O1; O2; O3; O4; O5].
+
 Definition caller (a : bool) (s : sst) : nat := if a then cA s else cB s.
 Definition conn (first : bool) (s : sst) : nat := if first then k1 s else k2 s.
 
